@@ -292,9 +292,9 @@ def run(chk):
     chk.rule("R20.2", "registration sites attach a node created in the call to exactly one pre-existing node (leaf attachment)")
     chk.rule("R20.3", "registries and routing state are written only at the listed sites; __add__/path/steps protocol")
     chk.rule("R20.4", "shape of the routing update (frozen by reading)")
-    r20_1(chk)
-    r20_2(chk)
-    r20_3(chk)
-    r20_4(chk)
+    chk.guard(r20_1, chk)
+    chk.guard(r20_2, chk)
+    chk.guard(r20_3, chk)
+    chk.guard(r20_4, chk)
     chk.assume("leaf attachment to a tree keeps it a tree, and on a tree the route is unique: routing correctness on the built-in "
                "graphs then needs only that _update reaches every node (R20.4 shape), not shortest-path selection")
